@@ -531,6 +531,10 @@ PROPS = {
                      "reconfiguring the running server), client (no OPT record, or advertising 100 / 512 / 600 / 1000 / 1232 / 4096) and answer size (3 / 28 / 120 records): the response has the "
                      "request's ID and question and parses completely, is no longer than min(max(512, advertised), max(512, limit)) -- 512 without EDNS --, and has TC set exactly when records "
                      "had to go; a full answer that fits is not cut (bounded exploration; server harness after a round-11 seeding sub-agent's demonstration programs; its first run found D60)"},
+            {"bin": "c16_search_stream_pipelining", "crate": "replay_srv", "release": True,
+             "what": "the real StreamServer on a loopback TCP socket: 12 pipelining scenarios -- request A whole, the first 1 / 2 / 3 / 7 / 20 / all-but-one octets of the length-prefixed request B while the "
+                     "answer to A is held back or not, the rest of B after A's response, then request C -- every request answered exactly once with its own ID and question, framing intact (bounded exploration; "
+                     "harness after a round-11 seeding sub-agent's demonstration program; decides seed C16-1, a receive future that is not cancel-safe dropped by a tidied-up select!)"},
         ],
         "explanation": "The size clause of the statement, at the place where the limit is decided. EdnsMiddlewareSvc::preprocess (net/server/middleware/edns.rs, the whole 170-line function, real text): for every request, "
                        "exactly the requests RFC 6891 6.1.1 / 6.1.3 and RFC 7828 3.2.1 name are broken off -- more than one OPT record, an OPT record that does not parse, a keep-alive option with a timeout over TCP: FORMERR; "
